@@ -59,10 +59,12 @@ def check_create_index(rep, prog, fn):
             l = ops[0].strip_all()
             if l.k == 'CXXOperatorCallExpr' and l.op == '[]' and ex.var_of(l.c[1]) is not None and prog.vars[ex.var_of(l.c[1])]['kind'] == 'field':
                 stores.setdefault(ex.var_of(l.c[1]), []).append((d, l.c[2], ops[1]))
-    if len(edge_loops) != 1:
-        rep.violation('R16a', fn.body, fn, what, '%d loops over boost::edges(g) (expected exactly one): an edge may be numbered twice or not at all' % len(edge_loops),
-                      key='R16a|%s|loops' % fn.g)
+    if not edge_loops:
+        rep.violation('R16a', fn.body, fn, what, 'no loop over boost::edges(g): no edge is numbered', key='R16a|%s|loops' % fn.g)
         return
+    # several sweeps over edges(g) are fine as long as the arms (index stores) are selected by forest membership so that every edge is
+    # numbered by exactly one of them (decided below arm by arm)
+    edge_loops = [lp for lp in edge_loops if not any(o is not lp and o.is_ancestor_of(lp) for o in edge_loops)]
     loop = edge_loops[0]
     # the single pass must be reached whenever the graph has an edge: an early return in front of it may only fire for m == 0
     for r in ex.returns_of(fn):
@@ -103,7 +105,7 @@ def check_create_index(rep, prog, fn):
                           'index (index.at(e) throws, reverse_index holds null descriptors)' % bad, key='R16a|%s|early-return' % fn.g)
         else:
             rep.ok('R16a', r, fn, whatr)
-    outside = [d for lst in stores.values() for (d, _k, _v) in lst if not loop.is_ancestor_of(d)]
+    outside = [d for lst in stores.values() for (d, _k, _v) in lst if not any(lp.is_ancestor_of(d) for lp in edge_loops)]
     if outside:
         rep.violation('R16a', outside[0], fn, what, 'index tables are also written outside the single pass over edges(g) (line %d)' % outside[0].line,
                       key='R16a|%s|outside' % fn.g)
@@ -119,19 +121,24 @@ def check_create_index(rep, prog, fn):
     counters = {}
     for (d, keyn, valn) in mstores:
         c = ex.var_of(valn)
-        e = ex.var_of(keyn)
-        if c is None or e is None:
-            problems.append('`%s` does not store a counter for an edge variable' % d.text(40))
+        e = ex.key(keyn)
+        myloop = [lp for lp in edge_loops if lp.is_ancestor_of(d)][0]
+        if c is None or e is None or not current_edge(fn, keyn, myloop):
+            problems.append('`%s` does not store a counter for the edge being visited' % d.text(40))
             continue
         # matching vector store in the same block
         pd = cfg.pos_of(d)
-        mate = [v for v in vstores if cfg.pos_of(v[0]) and cfg.pos_of(v[0])[0] == pd[0] and ex.var_of(v[1]) == c and ex.var_of(v[2]) == e]
+        mate = [v for v in vstores if cfg.pos_of(v[0]) and cfg.pos_of(v[0])[0] == pd[0] and ex.var_of(v[1]) == c and ex.key(v[2]) == e]
         if not mate:
-            problems.append('index[%s] = %s has no matching reverse_index[%s] = %s on the same path' % (prog.vars[e]['name'], prog.vars[c]['name'], prog.vars[c]['name'], prog.vars[e]['name']))
+            problems.append('index[%s] = %s has no matching reverse_index[%s] = %s on the same path' % (keyn.text(12), prog.vars[c]['name'], prog.vars[c]['name'], keyn.text(12)))
             continue
-        incs = [x for x in loop.walk() if x.k == 'UnaryOperator' and x.op == '++' and ex.var_of(x.c[0]) == c and cfg.pos_of(x) and cfg.pos_of(x)[0] == pd[0]]
-        incs += [x for x in loop.walk() if x.k == 'CompoundAssignOperator' and x.op == '+=' and ex.var_of(x.c[0]) == c and x.c[1].strip_all().cv == 1
+        incs = [x for x in myloop.walk() if x.k == 'UnaryOperator' and x.op == '++' and ex.var_of(x.c[0]) == c and cfg.pos_of(x) and cfg.pos_of(x)[0] == pd[0]]
+        incs += [x for x in myloop.walk() if x.k == 'CompoundAssignOperator' and x.op == '+=' and ex.var_of(x.c[0]) == c and x.c[1].strip_all().cv == 1
                  and cfg.pos_of(x) and cfg.pos_of(x)[0] == pd[0]]
+        # the counter must not be touched anywhere else (another sweep re-using it would number two edges alike)
+        other_writes = [a_ for (a_, _r) in ex.assignments_to(fn, c) if a_.k != 'VarDecl' and a_ not in incs]
+        if other_writes:
+            problems.append('counter %s is also modified at line %d' % (prog.vars[c]['name'], other_writes[0].line))
         if len(incs) != 1:
             problems.append('counter %s is incremented %d times in the arm that uses it' % (prog.vars[c]['name'], len(incs)))
         else:
@@ -210,10 +217,45 @@ def check_create_index(rep, prog, fn):
                     reach_out = True
             if reach_in or not reach_out:
                 problems.append('forest edges are numbered from 0 and off-forest edges from the dimension (arms swapped)')
+            # the other arm: exactly the forest edges
+            pch = guards_formula(cfg, counters[high[0]][0], atomize)
+            ah = ex.f_atoms(pch)
+            if 'in_forest' not in ah:
+                if len(edge_loops) > 1:
+                    if ex.opaque_nodes(fn, pch):
+                        rep.undecided('R16a', loop, fn, what, 'arm guard `%s` is outside the membership idiom table' % ex.opaque_nodes(fn, pch)[0].text(40))
+                        return
+                    problems.append('the second sweep numbers every edge, not only the forest edges: off-forest edges are numbered twice')
+            else:
+                oh = [a for a in ah if a != 'in_forest']
+                r_in = any(ex.f_eval(pch, dict(zip(oh, vals), in_forest=True)) for vals in itertools.product((False, True), repeat=len(oh)))
+                r_out = any(ex.f_eval(pch, dict(zip(oh, vals), in_forest=False)) for vals in itertools.product((False, True), repeat=len(oh)))
+                if r_out or not r_in:
+                    problems.append('the arm that numbers from the dimension is not taken exactly for the forest edges')
     if problems:
         rep.violation('R16a', loop, fn, what, '; '.join(sorted(set(problems))), key='R16a|%s|numbering' % fn.g)
     else:
         rep.ok('R16a', loop, fn, what, 'one pass over edges(g); two arms, each index[e] = c; reverse_index[c] = e; c++')
+
+
+def current_edge(fn, keyn, loop):
+    """does keyn denote the edge the loop is visiting: *it of the loop iterator, the range-for variable, or a local defined from one of them"""
+    from .phase import is_current_element
+    s = keyn.strip_all()
+    if is_current_element(fn, s, loop):
+        return True
+    v = ex.var_of(s)
+    if v is not None:
+        d = ex.unique_def(fn, v)
+        if d is not None and loop.is_ancestor_of(d):
+            s = d.strip_all()
+    if s.k in ('UnaryOperator', 'CXXOperatorCallExpr') and s.op == '*':
+        it = ex.var_of(s.c[-1])
+        # iterator assigned in the loop header through boost::tie(it, end) = edges(g)
+        hdr = loop.role('init') if loop.k == 'ForStmt' else None
+        if it is not None and hdr is not None and any(x.k == 'DeclRefExpr' and x.decl_id == it for x in hdr.walk()):
+            return True
+    return False
 
 
 def forest_set(prog, fn, v):
@@ -518,8 +560,9 @@ def check_forest_emission(rep, prog):
                     continue
                 if x.k == 'CXXMemberCallExpr' and x.callee and x.callee['name'] == 'erase' and ex.var_of(x.object_arg()) in sets:
                     erased = True
-                if x.k == 'CXXMemberCallExpr' and x.callee and x.callee['name'] == 'push':
-                    pushed = True
+                if x.k == 'CXXMemberCallExpr' and x.callee and x.callee['name'] in ('push', 'push_back', 'emplace', 'emplace_back', 'push_front') and x.args() and \
+                        ex.var_of(x.object_arg()) not in sets and any(ex.key(x.args()[-1]) == ex.key(kn) for kn in sets.values()):
+                    pushed = True       # the endpoint goes into the work list (queue, stack or vector with a read cursor)
             if erased and pushed:
                 rep.ok('R16f', d, fn, what, 'guarded by membership in the unreached set; erase + push in the same block')
             else:
